@@ -1,11 +1,161 @@
-(* C03 -- run-length vector: placeholder while the correspondence is brought up. *)
+(* C03 -- the run-length vector built through RLBuilder answers every query exactly and reports the maximal runs.
+   Only property theorems here: statement, [exact lemma], Print Assumptions. Statements written out in full over
+   the model (Model/RL.v) and the run-list specification (Spec/Runs.v). *)
 From Coq Require Import NArith List Bool.
-Require Import SDS.Model.Mach SDS.Model.RL SDS.Spec.Runs.
+Require Import SDS.Model.Mach SDS.Model.Bits SDS.Model.IntVec SDS.Model.RL SDS.gen.Consts SDS.gen.Funs.
+Require Import SDS.Spec.Runs.
+Require Import SDS.Proofs.RLIntVec SDS.Proofs.RLVarint SDS.Proofs.RLIndex SDS.Proofs.RLRep SDS.Proofs.RLIter SDS.Proofs.RLBounds
+               SDS.Proofs.RLProof.
 Import ListNotations.
 Open Scope N_scope.
 
-Theorem C03_doc_example :
+(* Main theorem. For every list R of runs of set bits (sorted, non-overlapping, adjacency allowed, lengths >= 1),
+   every total length L with end(R) <= L <= 2^64-1, overflow checks on or off:
+   the builder accepts every call, `RLVector::from` returns (no panic of any kind, no exhausted fuel), and
+   len / count_ones / count_zeros / run_iter() with the running (offset, rank) / get / rank / rank_zero / select /
+   select_zero / predecessor / successor equal the specification on the MAXIMAL runs of R for every argument.
+   [lenN R < 2^56] bounds the number of runs by what an address space can hold (each run takes at least two
+   4-bit code units of `data`); it is the only bound. *)
+Theorem C03_rl_exact : forall (m : mode) (R : list (N * N)) (L : N),
+  runs_sorted 0 R -> runs_end R <= L -> L <= 2 ^ 64 - 1 -> lenN R < 2 ^ 56 ->
+  exists v,
+    rl_build m (map (fun r => BTrySet (fst r) (snd r)) R ++ [BSetLen L]) = Ok (v, map (fun _ => true) R ++ [true]) /\
+    rl_len v = L /\ rl_ones v = runs_ones (maximal R) /\ rl_count_zeros v = L - runs_ones (maximal R) /\
+    rl_runs m v = Ok (runs_with_pos 0 (maximal R)) /\
+    (forall i, i < L -> rl_get m v i = Ok (runs_get (maximal R) i)) /\
+    (forall i, i < 2 ^ 64 -> rl_rank m v i = Ok (runs_rank (maximal R) i)) /\
+    (forall i, i < 2 ^ 64 -> rl_rank_zero m v i = Ok (i - runs_rank (maximal R) i)) /\
+    (forall r, r < 2 ^ 64 -> rl_select m v r = Ok (runs_select (maximal R) r)) /\
+    (forall r, r < 2 ^ 64 -> rl_select_zero m v r = Ok (runs_select_zero (maximal R) L r)) /\
+    (forall x, x < 2 ^ 64 -> oi_first m v (rl_predecessor m v x) = Ok (runs_pred (maximal R) x)) /\
+    (forall x, x < 2 ^ 64 -> oi_first m v (rl_successor m v x) = Ok (runs_succ (maximal R) x)).
+Proof. exact rl_exact. Qed.
+Print Assumptions C03_rl_exact.
+
+(* [maximal R] is what the name says: gaps of at least one unset bit between consecutive runs, same end,
+   and exactly the bits of R *)
+Theorem C03_maximal_runs : forall R : list (N * N),
+  runs_sorted 0 R ->
+  runs_maximal true 0 (maximal R) /\ runs_end (maximal R) = runs_end R /\
+  forall i, runs_get (maximal R) i = runs_get R i.
+Proof. exact maximal_spec. Qed.
+Print Assumptions C03_maximal_runs.
+
+(* the variable-length code: [rl_encode] appends the units [enc u] (1..22 of them, [rl_code_len] many), and
+   [rl_decode] started at the first unit returns u and the offset just after the last unit, for every u < 2^64 *)
+Theorem C03_varint_roundtrip : forall m v dv D u,
+  iv_rep dv 4 D -> rl_data v = dv -> u < 2 ^ 64 ->
+  (exists dv', rl_encode dv u = Ok dv' /\ iv_rep dv' 4 (D ++ enc u)) /\
+  rl_code_len m u = Ok (lenN (enc u)) /\ 1 <= lenN (enc u) <= 22 /\
+  forall pre post, D = pre ++ enc u ++ post ->
+    rl_decode m v (lenN pre) = Ok (u, lenN pre + lenN (enc u)).
+Proof.
+  intros m v dv D u Hr Hd Hu. split; [apply rl_encode_spec; assumption|].
+  split; [apply rl_code_len_spec; assumption|]. split; [apply enc_len|].
+  intros pre post HD. subst dv. eapply rl_decode_spec; eauto.
+Qed.
+Print Assumptions C03_varint_roundtrip.
+
+(* SampleIndex::parameters never overflows, for every universe up to 2^64-1 *)
+Theorem C03_index_parameters : forall m values universe,
+  1 <= values -> values + 8 < 2 ^ 64 -> 1 <= universe < 2 ^ 64 ->
+  exists ns d, si_parameters m values universe = Ok (ns, d) /\
+    1 <= d /\ 1 <= ns /\ (ns - 1) * d < universe /\ universe <= ns * d /\ ns <= values /\ d <= universe.
+Proof. exact si_parameters_spec. Qed.
+Print Assumptions C03_index_parameters.
+
+(* SampleIndex::new accepts NON-DECREASING values starting with 0 (the relaxed assertion of the repair), and
+   range(x) then returns start < end <= n with values[start] <= x and (end = n or x < values[end]) *)
+Theorem C03_index_range : forall m V U x,
+  V <> [] -> nthN V 0 = Some 0 -> nondec V -> 1 <= U < 2 ^ 64 -> lenN V + 8 < 2 ^ 64 -> x < U ->
+  exists si s e y, si_new m V U = Ok si /\ si_range m si x = Ok (s, e) /\
+    s < e /\ e <= lenN V /\ nthN V s = Some y /\ y <= x /\
+    (e = lenN V \/ exists z, nthN V e = Some z /\ x < z).
+Proof.
+  intros m V U x Hne H0 Hnd HU HV Hx.
+  destruct (si_new_spec m V U Hne H0 Hnd HU HV) as (si & Hn & Hok).
+  destruct (si_range_full m si V U x Hok Hx ltac:(apply HU)) as (s & e & y & Hr & H1 & H2 & H3 & H4 & H5).
+  exists si, s, e, y. split; [exact Hn|]. split; [exact Hr|]. split; [exact H1|]. split; [exact H2|].
+  split; [exact H3|]. split; [exact H4|exact H5].
+Qed.
+Print Assumptions C03_index_range.
+
+(* block_for terminates within its 64 iterations on every range of at most 2^63 blocks and, for a monotone key
+   whose first value is <= x, returns the LAST index of the range with key <= x *)
+Theorem C03_block_for : forall m x f g low high,
+  (forall i, low <= i < high -> f i = Ok (g i)) -> low < high -> high - low <= 2 ^ 63 -> g low <= x ->
+  (forall i j, low <= i -> i <= j -> j < high -> g i <= g j) ->
+  exists i, rl_block_for 64 m low high x f = Ok i /\ low <= i < high /\ g i <= x /\
+            forall j, i < j -> j < high -> x < g j.
+Proof.
+  intros m x f g low high Hf Hlt Hd Hg Hmono.
+  apply (block_for_last 64 m x f g low high low high); try assumption.
+  - apply N.le_refl.
+  - apply N.le_refl.
+  - left. reflexivity.
+  - apply le_S. apply le_S. repeat constructor.
+Qed.
+Print Assumptions C03_block_for.
+
+(* the block partition of the built vector: [rl_ok v BS L] says that data = the blocks BS of whole maximal runs,
+   each at most 64 code units, zero padded except the last, samples = (ones, bits) before each block, and the
+   three sample indexes are in place (Proofs/RLRep.v) *)
+Theorem C03_block_partition : forall (m : mode) (R : list (N * N)) (L : N),
+  runs_sorted 0 R -> runs_end R <= L -> L <= 2 ^ 64 - 1 -> lenN R < 2 ^ 56 ->
+  exists v BS,
+    rl_build m (map (fun r => BTrySet (fst r) (snd r)) R ++ [BSetLen L]) = Ok (v, map (fun _ => true) R ++ [true]) /\
+    concat BS = maximal R /\ rl_ok v BS L.
+Proof. exact rl_block_partition. Qed.
+Print Assumptions C03_block_partition.
+
+(* the bound behind the exact (unchecked) arithmetic of RunIter and the scan loops in the model: in every state
+   the run iterator can reach (the position invariant [Abs]: it has yielded the runs dn and will yield todo),
+   rank <= offset <= len < 2^64 and the next run lies between the offset and len *)
+Theorem C03_runiter_bounds : forall v BS L it dn todo,
+  rl_ok v BS L -> Abs BS it dn todo ->
+  ri_rank it <= ri_off it /\ ri_off it <= L /\ L < 2 ^ 64 /\
+  match todo with
+  | [] => True
+  | r :: _ => ri_off it <= fst r /\ 1 <= snd r /\ fst r + snd r <= L /\ ri_rank it + snd r <= fst r + snd r
+  end.
+Proof. exact runiter_bounds. Qed.
+Print Assumptions C03_runiter_bounds.
+
+(* the derived iterators: for every n, the first n items of select_iter(r) / select_zero_iter(r) / one_iter() /
+   zero_iter() / iter() are the ranked set positions from rank r, the ranked unset positions, and the bits *)
+Theorem C03_iterators : forall (m : mode) (R : list (N * N)) (L : N) (n : nat),
+  runs_sorted 0 R -> runs_end R <= L -> L <= 2 ^ 64 - 1 -> lenN R < 2 ^ 56 ->
+  exists v,
+    rl_build m (map (fun r => BTrySet (fst r) (snd r)) R ++ [BSetLen L]) = Ok (v, map (fun _ => true) R ++ [true]) /\
+    (forall r, r < 2 ^ 64 ->
+       (let* s := rl_select_iter m v r in oi_take n m v s) = Ok (ones_from_rank n (maximal R) r)) /\
+    (forall r, r < 2 ^ 64 ->
+       (let* s := rl_select_zero_iter m v r in zi_take n m v s) = Ok (zeros_from_rank n (maximal R) L r)) /\
+    (let* s := rl_one_iter v in oi_take n m v s) = Ok (ones_from_rank n (maximal R) 0) /\
+    (let* s := rl_zero_iter m v in zi_take n m v s) = Ok (zeros_from_rank n (maximal R) L 0) /\
+    (let* s := rl_iter v in bi_take n m v s) = Ok (bits_from n (maximal R) L 0).
+Proof. intros m R L n. exact (rl_iterators m R L n). Qed.
+Print Assumptions C03_iterators.
+
+(* non-vacuity: the documentation example (an adjacent pair merges), and the two former defects as inputs *)
+Example C03_example_doc :
   (let* (v, oks) := rl_build Debug [BTrySet 18 22; BTrySet 95 15; BTrySet 110 10; BTrySet 140 12; BSetLen 200] in
-   let* r := rl_runs Debug v in Ok (map fst r)) = Ok [(18, 22); (95, 25); (140, 12)].
+   let* runs := rl_runs Debug v in
+   let* a := rl_select Debug v 24 in
+   let* b := rl_select_zero Debug v 130 in
+   let* c := oi_first Debug v (rl_predecessor Debug v 40) in
+   Ok (oks, runs, a, b, c))
+  = Ok ([true; true; true; true; true],
+        [((18, 22), (40, 22)); ((95, 25), (120, 47)); ((140, 12), (152, 59))],
+        Some 97, Some 189, Some (21, 39)).
 Proof. vm_compute. reflexivity. Qed.
-Print Assumptions C03_doc_example.
+
+Example C03_example_former_defects :
+  (let* (v, oks) := rl_build Debug [BTrySet 5 3; BSetLen (2 ^ 64 - 1)] in
+   let* a := rl_select_zero Debug v (2 ^ 64 - 5) in Ok (oks, a))
+  = Ok ([true; true], Some (2 ^ 64 - 2)) /\
+  (let* (v, oks) := rl_build Debug [BTrySet 0 (2 ^ 63 + 1); BTrySet (2 ^ 63 + 1 + 2 ^ 60) (2 ^ 60 + 1)] in
+   let* a := iv_get (rl_samples v) 2 in
+   let* b := iv_get (rl_samples v) 3 in Ok (oks, rl_blocks v, a, b))
+  = Ok ([true; true], 2, 2 ^ 63 + 1, 2 ^ 63 + 1).
+Proof. split; vm_compute; reflexivity. Qed.
